@@ -170,6 +170,8 @@ fn div_rem(mut u: BigUint, mut d: BigUint) -> (BigUint, BigUint) {
         if d.data == [1] {
             return (u, BigUint::ZERO);
         }
+        #[cfg(num_bigint_verif)]
+        crate::verif_probe::hit(crate::verif_probe::Probe::DIV_SINGLE_DIGIT);
         let (div, rem) = div_rem_digit(u, d.data[0]);
         // reuse d
         d.data.clear();
@@ -197,8 +199,12 @@ fn div_rem(mut u: BigUint, mut d: BigUint) -> (BigUint, BigUint) {
 
     if shift == 0 {
         // no need to clone d
+        #[cfg(num_bigint_verif)]
+        crate::verif_probe::hit(crate::verif_probe::Probe::DIV_SHIFT_ZERO);
         div_rem_core(u, &d.data)
     } else {
+        #[cfg(num_bigint_verif)]
+        crate::verif_probe::hit(crate::verif_probe::Probe::DIV_SHIFT_NONZERO);
         let (q, r) = div_rem_core(u << shift, &(d << shift).data);
         // renormalize the remainder
         (q, r >> shift)
@@ -218,6 +224,8 @@ pub(super) fn div_rem_ref(u: &BigUint, d: &BigUint) -> (BigUint, BigUint) {
             return (u.clone(), BigUint::ZERO);
         }
 
+        #[cfg(num_bigint_verif)]
+        crate::verif_probe::hit(crate::verif_probe::Probe::DIV_SINGLE_DIGIT);
         let (div, rem) = div_rem_digit(u.clone(), d.data[0]);
         return (div, rem.into());
     }
@@ -239,8 +247,12 @@ pub(super) fn div_rem_ref(u: &BigUint, d: &BigUint) -> (BigUint, BigUint) {
 
     if shift == 0 {
         // no need to clone d
+        #[cfg(num_bigint_verif)]
+        crate::verif_probe::hit(crate::verif_probe::Probe::DIV_SHIFT_ZERO);
         div_rem_core(u.clone(), &d.data)
     } else {
+        #[cfg(num_bigint_verif)]
+        crate::verif_probe::hit(crate::verif_probe::Probe::DIV_SHIFT_NONZERO);
         let (q, r) = div_rem_core(u << shift, &(d << shift).data);
         // renormalize the remainder
         (q, r >> shift)
@@ -285,6 +297,8 @@ fn div_rem_core(mut a: BigUint, b: &[BigDigit]) -> (BigUint, BigUint) {
     for j in (0..q_len).rev() {
         debug_assert!(a.data.len() == b.len() + j);
 
+        #[cfg(num_bigint_verif)]
+        crate::verif_probe::hit(crate::verif_probe::Probe::DIV_KNUTH_STEP);
         let a1 = *a.data.last().unwrap();
         let a2 = a.data[a.data.len() - 2];
 
@@ -294,6 +308,8 @@ fn div_rem_core(mut a: BigUint, b: &[BigDigit]) -> (BigUint, BigUint) {
             let (q0, r) = div_wide(a0, a1, b0);
             (q0, r as DoubleBigDigit)
         } else {
+            #[cfg(num_bigint_verif)]
+            crate::verif_probe::hit(crate::verif_probe::Probe::DIV_TOP_DIGIT_EQUAL);
             debug_assert!(a0 == b0);
             // Avoid overflowing q0, we know the quotient fits in BigDigit.
             // [a1,a0] = b0 * (1<<BITS - 1) + (a0 + a1)
@@ -313,6 +329,8 @@ fn div_rem_core(mut a: BigUint, b: &[BigDigit]) -> (BigUint, BigUint) {
                 < q0 as DoubleBigDigit * b1 as DoubleBigDigit
         {
             q0 -= 1;
+            #[cfg(num_bigint_verif)]
+            crate::verif_probe::hit(crate::verif_probe::Probe::DIV_REFINE_ITER);
             r += b0 as DoubleBigDigit;
         }
 
@@ -322,6 +340,8 @@ fn div_rem_core(mut a: BigUint, b: &[BigDigit]) -> (BigUint, BigUint) {
         let mut borrow = sub_mul_digit_same_len(&mut a.data[j..], b, q0);
         if borrow > a0 {
             // q0 is too large. We need to add back one multiple of b.
+            #[cfg(num_bigint_verif)]
+            crate::verif_probe::hit(crate::verif_probe::Probe::DIV_ADD_BACK);
             q0 -= 1;
             borrow -= __add2(&mut a.data[j..], b);
         }
